@@ -36,7 +36,9 @@ pub struct Ver {
 pub struct Case {
   pub versions: Vec<Ver>,
   pub cutoff: bool,
-  /// 0 none, 1 this package by name, 2 by prefix `@s/`, 3 another package
+  /// 0 none, 1 this package by name, 2 by prefix `@s/`, 3 another package,
+  /// 4 a *name* that is a string prefix of this package's name (no effect),
+  /// 5 a *prefix* that is longer than this package's name (no effect)
   pub exclude: u8,
   /// function level: already selected versions (index into VERSIONS, 255 = unlisted 1.0.9)
   pub existing: Vec<u8>,
@@ -61,7 +63,7 @@ pub fn spec() -> PropSpec<Case> {
       (
         proptest::collection::vec(ver_strategy(), 0..=6),
         any::<bool>(),
-        0..4u8,
+        0..6u8,
         proptest::collection::vec(prop_oneof![4 => 0..VERSIONS.len() as u8, 1 => Just(255u8)], 0..=3),
         proptest::collection::vec(0..VERSIONS.len() as u8, 0..=3),
         0..REQS.len() as u8,
@@ -208,6 +210,11 @@ fn options(cutoff: bool, exclude: u8) -> NewestDependencyDateOptions {
     3 => {
       o.exclude_jsr_pkgs.insert("@s/other".into());
     }
+    4 => {
+      o.exclude_jsr_pkgs.insert("@s/".into());
+      o.exclude_jsr_pkgs.insert("@s".into());
+    }
+    5 => o.exclude_jsr_pkg_prefixes.push("@s/ab".into()),
     _ => {}
   }
   o
@@ -699,7 +706,7 @@ pub fn extra(tier: Tier, _seed: u64) -> ExtraReport {
                     .filter(|(i, _)| cmask & (1 << i) != 0)
                     .map(|(_, l)| l.version.clone())
                     .collect();
-                  for (cutoff, exclude) in [(false, 0u8), (true, 0), (true, 1), (true, 2), (true, 3)] {
+                  for (cutoff, exclude) in [(false, 0u8), (true, 0), (true, 1), (true, 2), (true, 3), (true, 4), (true, 5)] {
                     for req in REQS {
                       let mut o = Outcome::default();
                       let nt = fn_eval(&listed, &existing, &cached, req, cutoff, exclude, &mut o);
@@ -775,7 +782,7 @@ pub fn extra(tier: Tier, _seed: u64) -> ExtraReport {
   }
   rep.exhaustive = Some(true);
   rep.notes.push(format!(
-    "function level enumerated completely: all sets of <= {kmax} versions out of {} x yanked x 4 date classes x all subsets of already-selected (incl. one unlisted) x all cached subsets x 5 cut-off/exclusion settings x {} requirements = {} evaluations",
+    "function level enumerated completely: all sets of <= {kmax} versions out of {} x yanked x 4 date classes x all subsets of already-selected (incl. one unlisted) x all cached subsets x 7 cut-off/exclusion settings x {} requirements = {} evaluations",
     pool.len(),
     REQS.len(),
     rep.evaluations
